@@ -5,10 +5,11 @@ import NgoVerif.Sem.Program
 
 `h :- B, X != Y.` and `h :- B, X < Y.` have the same here-and-there models (hence the same stable models, whatever is
 added to the program) when
-* the body `B` is symmetric: swapping `X` and `Y` maps `B` to itself *as a set of body literals* (decidable on the
-  syntax; this is what "two copies of the same literals" means),
-* the set of global variables of the rule is closed under the swap,
-* the head does not distinguish `e` from `e ∘ swap` (it mentions neither variable), and
+* the body `B` is symmetric: an involution `σ` of the variables that exchanges `X` and `Y` (the plain swap, or the swap
+  of several pairs at once) maps every literal of `B` to a literal of `B`, up to the orientation of an inequality
+  `U != V` (decidable on the syntax; this is what "two copies of the same literals" means),
+* the set of global variables of the rule is closed under `σ`,
+* the head does not distinguish `e` from `e ∘ σ` (it mentions none of the exchanged variables), and
 * `!=` is `<` or `>` on ground terms (clingo's order on symbols is total).
 The theorem holds for every choice of the arithmetic / aggregate parameters and for every head semantics with the
 stated invariance.  It is the typed-program version of `C11_neq_to_lt`; `neq_to_lt_needs_symmetry` in `Props/C11.lean`
@@ -55,32 +56,55 @@ theorem globals_same (h : Head) (b : List BLit) (X Y : String) (op op' : CmpOp) 
     ruleGlobals P h (b ++ [cmpBLit X op Y]) = ruleGlobals P h (b ++ [cmpBLit X op' Y]) := by
   simp [ruleGlobals, bodyGlobals, cmpBLit, blitGlobals, litVars, litTerms, Atom.terms]
 
-structure Symmetric (X Y : String) (h : Head) (b : List BLit) : Prop where
-  /-- the rest of the body is symmetric in the two variables -/
-  body : ∀ l, l ∈ renameBody (swap X Y) b ↔ l ∈ b
-  /-- the global variables of the rule are closed under the swap -/
-  globals : ∀ v, v ∈ ruleGlobals P h (b ++ [cmpBLit X .ne Y]) ↔ swap X Y v ∈ ruleGlobals P h (b ++ [cmpBLit X .ne Y])
+/-- the side condition, for an involution `σ` of the variables that exchanges `X` and `Y` (the plain swap, or the swap
+of several pairs at once: `p(A), p(B), q(A,V1), q(B,V2), V1 != V2` is symmetric under `A↔B, V1↔V2` only) -/
+structure Symmetric (σ : String → String) (X Y : String) (h : Head) (b : List BLit) : Prop where
+  inv : ∀ v, σ (σ v) = v
+  sx : σ X = Y
+  /-- the rest of the body is symmetric: the image of every literal is again in the body, up to the orientation of
+  an inequality `U != V` -/
+  body : ∀ l ∈ b, renameBLit σ l ∈ b ∨ ∃ U V, renameBLit σ l = cmpBLit U .ne V ∧ cmpBLit V .ne U ∈ b
+  /-- the global variables of the rule are closed under `σ` -/
+  globals : ∀ v, v ∈ ruleGlobals P h (b ++ [cmpBLit X .ne Y]) ↔ σ v ∈ ruleGlobals P h (b ++ [cmpBLit X .ne Y])
   /-- the head cannot tell the two orientations apart -/
-  head : ∀ (e : Env) H T, P.headSat (fun v => v ∈ ruleGlobals P h (b ++ [cmpBLit X .ne Y])) (fun v => e (swap X Y v)) H T h ↔
+  head : ∀ (e : Env) H T, P.headSat (fun v => v ∈ ruleGlobals P h (b ++ [cmpBLit X .ne Y])) (fun v => e (σ v)) H T h ↔
     P.headSat (fun v => v ∈ ruleGlobals P h (b ++ [cmpBLit X .ne Y])) e H T h
   /-- clingo's order on ground terms is total -/
   total : ∀ x y, P.rel .ne x y ↔ (P.rel .lt x y ∨ P.rel .lt y x)
 
-/-- a symmetric body holds at `e ∘ swap` when it holds at `e` -/
-theorem body_swap {X Y : String} {h : Head} {b : List BLit} (hs : Symmetric P X Y h b) (e : Env) (H T : Interp)
+theorem Symmetric.sy {σ : String → String} {X Y : String} {h : Head} {b : List BLit} (hs : Symmetric P σ X Y h b) :
+    σ Y = X := by rw [← hs.sx, hs.inv]
+
+theorem ne_comm {σ : String → String} {X Y : String} {h : Head} {b : List BLit} (hs : Symmetric P σ X Y h b) (x y : Sym) :
+    P.rel .ne x y → P.rel .ne y x := by
+  intro hne
+  rcases (hs.total x y).mp hne with h1 | h1
+  · exact (hs.total y x).mpr (Or.inr h1)
+  · exact (hs.total y x).mpr (Or.inl h1)
+
+/-- a symmetric body holds at `e ∘ σ` when it holds at `e` -/
+theorem body_swap {σ : String → String} {X Y : String} {h : Head} {b : List BLit} (hs : Symmetric P σ X Y h b) (e : Env)
+    (H T : Interp)
     (hb : bodySat P.toParams (fun v => v ∈ ruleGlobals P h (b ++ [cmpBLit X .ne Y])) e H T b) :
-    bodySat P.toParams (fun v => v ∈ ruleGlobals P h (b ++ [cmpBLit X .ne Y])) (fun v => e (swap X Y v)) H T b := by
-  have h1 : bodySat P.toParams (fun v => v ∈ ruleGlobals P h (b ++ [cmpBLit X .ne Y])) e H T (renameBody (swap X Y) b) := by
-    intro l hl; exact hb l ((hs.body l).mp hl)
-  have h2 := (bodySat_rename P.toParams (swap X Y) (swap_inv X Y) _ H T b e).mp h1
-  have hG : renameG (swap X Y) (fun v => v ∈ ruleGlobals P h (b ++ [cmpBLit X .ne Y])) =
+    bodySat P.toParams (fun v => v ∈ ruleGlobals P h (b ++ [cmpBLit X .ne Y])) (fun v => e (σ v)) H T b := by
+  have hG : renameG σ (fun v => v ∈ ruleGlobals P h (b ++ [cmpBLit X .ne Y])) =
       (fun v => v ∈ ruleGlobals P h (b ++ [cmpBLit X .ne Y])) := by
     funext v; exact propext (hs.globals v).symm
-  rw [hG] at h2
-  exact h2
+  intro l hl
+  have key : blitSat P.toParams (fun v => v ∈ ruleGlobals P h (b ++ [cmpBLit X .ne Y])) e H T (renameBLit σ l) := by
+    rcases hs.body l hl with h1 | ⟨U, V, h1, h2⟩
+    · exact hb _ h1
+    · rw [h1, cmpBLit_sat]
+      have := hb _ h2
+      rw [cmpBLit_sat] at this
+      exact ne_comm P hs _ _ this
+  have := (blitSat_rename P.toParams σ hs.inv _ H T l e).mp key
+  rw [hG] at this
+  exact this
 
 /-- **`X != Y` ⟶ `X < Y` preserves the here-and-there models of the rule** -/
-theorem neq_to_lt_stm (l c : Nat) (X Y : String) (h : Head) (b : List BLit) (hs : Symmetric P X Y h b) (H T : Interp) :
+theorem neq_to_lt_stm (σ : String → String) (l c : Nat) (X Y : String) (h : Head) (b : List BLit)
+    (hs : Symmetric P σ X Y h b) (H T : Interp) :
     stmSat P H T (.rule l c h (b ++ [cmpBLit X .ne Y])) ↔ stmSat P H T (.rule l c h (b ++ [cmpBLit X .lt Y])) := by
   simp only [stmSat]
   rw [← globals_same P h b X Y .ne .lt]
@@ -89,16 +113,16 @@ theorem neq_to_lt_stm (l c : Nat) (X Y : String) (h : Head) (b : List BLit) (hs 
           P.headSat (fun v => v ∈ ruleGlobals P h (b ++ [cmpBLit X .ne Y])) e H' T h)) ↔
       ((bodySat P.toParams (fun v => v ∈ ruleGlobals P h (b ++ [cmpBLit X .ne Y])) e H' T (b ++ [cmpBLit X .lt Y]) →
           P.headSat (fun v => v ∈ ruleGlobals P h (b ++ [cmpBLit X .ne Y])) e H' T h) ∧
-       (bodySat P.toParams (fun v => v ∈ ruleGlobals P h (b ++ [cmpBLit X .ne Y])) (fun v => e (swap X Y v)) H' T
+       (bodySat P.toParams (fun v => v ∈ ruleGlobals P h (b ++ [cmpBLit X .ne Y])) (fun v => e (σ v)) H' T
           (b ++ [cmpBLit X .lt Y]) →
-          P.headSat (fun v => v ∈ ruleGlobals P h (b ++ [cmpBLit X .ne Y])) (fun v => e (swap X Y v)) H' T h)) := by
+          P.headSat (fun v => v ∈ ruleGlobals P h (b ++ [cmpBLit X .ne Y])) (fun v => e (σ v)) H' T h)) := by
     intro H' e
-    simp only [bodySat_snoc, cmpBLit_sat, swap_left, swap_right]
+    simp only [bodySat_snoc, cmpBLit_sat, hs.sx, hs.sy]
     constructor
     · intro hne
       refine ⟨fun ⟨hb, hlt⟩ => hne ⟨hb, (hs.total _ _).mpr (Or.inl hlt)⟩, fun ⟨hb, hlt⟩ => ?_⟩
-      have hb' := body_swap P hs (fun v => e (swap X Y v)) H' T hb
-      simp only [swap_inv] at hb'
+      have hb' := body_swap P hs (fun v => e (σ v)) H' T hb
+      simp only [hs.inv] at hb'
       exact (hs.head e H' T).mpr (hne ⟨hb', (hs.total _ _).mpr (Or.inr hlt)⟩)
     · rintro ⟨h1, h2⟩ ⟨hb, hne⟩
       rcases (hs.total _ _).mp hne with hlt | hgt
@@ -111,7 +135,8 @@ theorem neq_to_lt_stm (l c : Nat) (X Y : String) (h : Head) (b : List BLit) (hs 
     refine ⟨(key H e).mpr ⟨(hall e).1, (hall _).1⟩, (key T e).mpr ⟨(hall e).2, (hall _).2⟩⟩
 
 /-- … hence the programs are strongly equivalent -/
-theorem neq_to_lt_strongEq (pre post : Prog) (l c : Nat) (X Y : String) (h : Head) (b : List BLit) (hs : Symmetric P X Y h b) :
+theorem neq_to_lt_strongEq (σ : String → String) (pre post : Prog) (l c : Nat) (X Y : String) (h : Head) (b : List BLit)
+    (hs : Symmetric P σ X Y h b) :
     StrongEq P (pre ++ .rule l c h (b ++ [cmpBLit X .ne Y]) :: post) (pre ++ .rule l c h (b ++ [cmpBLit X .lt Y]) :: post) := by
   intro H T
   simp only [Models, List.mem_append, List.mem_cons]
@@ -119,12 +144,12 @@ theorem neq_to_lt_strongEq (pre post : Prog) (l c : Nat) (X Y : String) (h : Hea
   · intro hm s hs'
     rcases hs' with hs' | rfl | hs'
     · exact hm s (Or.inl hs')
-    · exact (neq_to_lt_stm P l c X Y h b hs H T).mp (hm _ (Or.inr (Or.inl rfl)))
+    · exact (neq_to_lt_stm P σ l c X Y h b hs H T).mp (hm _ (Or.inr (Or.inl rfl)))
     · exact hm s (Or.inr (Or.inr hs'))
   · intro hm s hs'
     rcases hs' with hs' | rfl | hs'
     · exact hm s (Or.inl hs')
-    · exact (neq_to_lt_stm P l c X Y h b hs H T).mpr (hm _ (Or.inr (Or.inl rfl)))
+    · exact (neq_to_lt_stm P σ l c X Y h b hs H T).mpr (hm _ (Or.inr (Or.inl rfl)))
     · exact hm s (Or.inr (Or.inr hs'))
 
 end NgoVerif.Proofs.C11sem
